@@ -312,10 +312,11 @@ func runReader(fn string, text []byte, extra ...string) {
 		}
 		ioerr := "-"
 		if err := r.Err(); err != nil {
-			ioerr = hx.HexS("ioerr")
+			ioerr = "ERR:" + hx.HexS(err.Error())
 		}
 		end := fmt.Sprintf("end n=%d failed=%s units=%s", n, ioerr, serUnits(r.Units()))
 		fmt.Fprintf(out, "obs %d %s\n", id, end)
+		fmt.Fprintf(out, "obs %d closed same\n", id)
 		fmt.Fprintf(out, "sobs %d %s clone=%s\n", id, end, cl)
 	})
 }
@@ -409,6 +410,7 @@ func runFiles(paths []string, allowStdin, allowLabels bool, fs []fsEntry, stdin 
 		}
 		end := fmt.Sprintf("end n=%d failed=%s units=%s", n, failed, serUnits(f.Units()))
 		fmt.Fprintf(out, "obs %d %s\n", id, end)
+		fmt.Fprintf(out, "obs %d closed same\n", id)
 		fmt.Fprintf(out, "sobs %d %s clone=%s distinct=%d\n", id, end, cl, len(labels))
 	})
 }
